@@ -613,12 +613,19 @@ type genSpec struct {
 	Shape string `json:"shape"` // nest | wide
 	Kind  string `json:"container"`
 	N     int    `json:"n"`
+	Core  int    `json:"core,omitempty"` // nest-core / beside-deep: index into repeatCores
 }
 
 func (c valCase) value() val {
 	if c.Gen != nil {
 		if c.Gen.Shape == "wide" {
 			return wide(c.Gen.Kind, c.Gen.N)
+		}
+		if c.Gen.Shape == "nest-core" {
+			return nestOver(c.Gen.Kind, c.Gen.N, repeatCores()[c.Gen.Core])
+		}
+		if c.Gen.Shape == "beside-deep" {
+			return vVec(nest(c.Gen.Kind, c.Gen.N), repeatCores()[c.Gen.Core])
 		}
 		return nest(c.Gen.Kind, c.Gen.N)
 	}
